@@ -1,6 +1,7 @@
 import JunoModel.C09.ProofsIndex
 import JunoModel.C09.ProofsSpec
 import JunoModel.C09.ProofsPre
+import JunoModel.C09.ProofsSound
 /-!
 C09 — property theorems (statements only; helper lemmas are in `Proofs*.lean`).
 
@@ -52,7 +53,7 @@ of the chain, the structure the iterator will consult (the running filter for it
 otherwise a cache entry or the persisted window) exists and has, for every block of the window,
 all items of the block's header bloom; and header blooms cover the events of their blocks. -/
 def NoFalseNeg (cfg : Cfg) (n : Node) : Prop :=
-  ChainWF n.chain ∧ Servable cfg n (n.chain.length - 1) ∧ CacheGood cfg n n.cache
+  ChainWF n.chain ∧ Servable cfg n (n.chain.length - 1) ∧ CacheGood cfg n n.cache ∧ n.floor ≤ n.chain.length - 1
 
 /-- `index_no_false_neg` for every variant of the code, with the hypotheses that the code as it
 is needs (`HistOK`: besides well-formed stored blocks, `RevertGuard` at every revert). -/
@@ -65,17 +66,20 @@ theorem index_no_false_neg_guarded (cfg : Cfg) (hW : 1 ≤ cfg.W) (ops : List Op
     | nil => exact absurd hc hne
     | cons _ _ => simp
   have := inv_servable cfg hW _ hinv ((run cfg Node.init ops).chain.length - 1) (by omega)
-  exact ⟨hinv.wf, this.1, this.2⟩
+  exact ⟨hinv.wf, this.1, this.2, by rcases hinv.floor_lt with h | h <;> omega⟩
 
 /-- The repaired code: all three repairs in. -/
 def Repaired (cfg : Cfg) : Prop := cfg.fixCache = true ∧ cfg.fixSnap = true ∧ cfg.fixPersist = true
 
 /-- The only hypotheses on a history of the repaired code: every stored block's header bloom
-covers the block's events (what `core.EventsBloom` computes) and heights fit `uint64`. -/
+covers the block's events (what `core.EventsBloom` computes: the superset assumption on bloom
+filters, checked on the real blooms by the harness), heights fit `uint64`, and a pruning node is
+not reorganised below its retention floor. -/
 def StoresOK (cfg : Cfg) : Node → List Op → Prop
   | _, [] => True
   | n, .store blk :: ops =>
       ((∀ it ∈ blk.items, it ∈ blk.bloom) ∧ n.chain.length + 1 < 2 ^ 64) ∧ StoresOK cfg (step cfg n (.store blk)) ops
+  | n, .revert :: ops => RevertAboveFloor n ∧ StoresOK cfg (step cfg n .revert) ops
   | n, op :: ops => StoresOK cfg (step cfg n op) ops
 
 /-- Executable form of `StoresOK` (for the concrete histories below). -/
@@ -84,10 +88,12 @@ def storesOKb (cfg : Cfg) : Node → List Op → Bool
   | n, .store blk :: ops =>
       (blk.items.all (fun it => blk.bloom.contains it) && decide (n.chain.length + 1 < 2 ^ 64)) &&
         storesOKb cfg (step cfg n (.store blk)) ops
-  | n, .revert :: ops => storesOKb cfg (step cfg n .revert) ops
+  | n, .revert :: ops =>
+      (decide (n.floor = 0) || decide (n.floor + 1 < n.chain.length)) && storesOKb cfg (step cfg n .revert) ops
   | n, .snap :: ops => storesOKb cfg (step cfg n .snap) ops
   | n, .restart :: ops => storesOKb cfg (step cfg n .restart) ops
   | n, .query f a b t c l :: ops => storesOKb cfg (step cfg n (.query f a b t c l)) ops
+  | n, .prune k :: ops => storesOKb cfg (step cfg n (.prune k)) ops
 
 theorem storesOK_of_b (cfg : Cfg) (ops : List Op) : ∀ n, storesOKb cfg n ops = true → StoresOK cfg n ops := by
   induction ops with
@@ -98,10 +104,13 @@ theorem storesOK_of_b (cfg : Cfg) (ops : List Op) : ∀ n, storesOKb cfg n ops =
     | store blk =>
       simp only [storesOKb, Bool.and_eq_true, List.all_eq_true, decide_eq_true_eq, List.contains_iff_mem] at h
       exact ⟨⟨h.1.1, h.1.2⟩, ih _ h.2⟩
-    | revert => exact ih _ h
+    | revert =>
+      simp only [storesOKb, Bool.and_eq_true, Bool.or_eq_true, decide_eq_true_eq] at h
+      exact ⟨h.1, ih _ h.2⟩
     | snap => exact ih _ h
     | restart => exact ih _ h
     | query f a b t c l => exact ih _ h
+    | prune k => exact ih _ h
 
 theorem histOK_of_repaired (cfg : Cfg) (hr : Repaired cfg) (ops : List Op) :
     ∀ n, StoresOK cfg n ops → HistOK cfg n ops := by
@@ -111,10 +120,11 @@ theorem histOK_of_repaired (cfg : Cfg) (hr : Repaired cfg) (ops : List Op) :
     intro n h
     cases op with
     | store blk => exact ⟨h.1, ih _ h.2⟩
-    | revert => exact ⟨⟨Or.inl hr.1, Or.inl hr.2.1, Or.inl hr.2.2⟩, ih _ h⟩
+    | revert => exact ⟨⟨⟨Or.inl hr.1, Or.inl hr.2.1, Or.inl hr.2.2⟩, h.1⟩, ih _ h.2⟩
     | snap => exact ⟨trivial, ih _ h⟩
     | restart => exact ⟨trivial, ih _ h⟩
     | query f a b t c l => exact ⟨trivial, ih _ h⟩
+    | prune k => exact ⟨trivial, ih _ h⟩
 
 /-- **index_no_false_neg** (full strength, for the repaired code): after EVERY history of store /
 revert (any depth, across window boundaries, after queries warmed the cache) / snapshot write /
@@ -124,19 +134,36 @@ theorem index_no_false_neg (cfg : Cfg) (hW : 1 ≤ cfg.W) (hr : Repaired cfg) (o
     NoFalseNeg cfg (run cfg Node.init ops) :=
   index_no_false_neg_guarded cfg hW ops (histOK_of_repaired cfg hr ops _ hok) hne
 
+/-- No operation of an admissible history of the repaired code fails: `Store` always finds the
+block inside the running window, `RevertHead` always finds the window it re-opens, the
+initialiser always succeeds. -/
+theorem ops_do_not_fail (cfg : Cfg) (hW : 1 ≤ cfg.W) (hr : Repaired cfg) (ops : List Op)
+    (hok : StoresOK cfg Node.init ops) :
+    let n := run cfg Node.init ops
+    (∀ blk, (∀ it ∈ blk.items, it ∈ blk.bloom) → n.chain.length + 1 < 2 ^ 64 → (store cfg n blk).2 = none) ∧
+    (n.chain ≠ [] → RevertAboveFloor n → (revert cfg n).2 = none) ∧
+    (restart cfg n).2 = none := by
+  intro n
+  have hinv := run_inv cfg hW ops Node.init (inv_init cfg hW) (histOK_of_repaired cfg hr ops _ hok)
+  have := step_no_error cfg hW n hinv
+  exact ⟨fun blk h1 h2 => this.1 blk ⟨h1, h2⟩,
+    fun hne hfl => this.2.1 hne ⟨⟨Or.inl hr.1, Or.inl hr.2.1, Or.inl hr.2.2⟩, hfl⟩, this.2.2⟩
+
 /-
-Full-strength statement for the code AS IT IS (all flags false) — FALSE, see the three witnesses
-below:
+The code BEFORE the three repairs (commits 6609698, 84d7a3b, 702b167; all `fix…` flags false).
+The full-strength statement was false for it — the three witnesses below are kept as regression
+documentation (the harness probes the real code and reports the violation again, under its own
+signature, should one of the defects return):
 
   theorem index_no_false_neg_asis (cfg) (hW : 1 ≤ cfg.W) (ops) (hok : StoresOK cfg Node.init ops) … :
       NoFalseNeg cfg (run cfg Node.init ops)
 
-What is proved for the code as it is: `index_no_false_neg_partial` — the invariant holds along every
-history in which each revert happens in a state where (a) the cache holds no entry for a window the
-revert re-opens, (b) there is no persisted snapshot at or above the reverted block, (c) the revert
-does not re-open a completed window (`RevertGuard`); in particular along every reorg-free history.
+What held for that code: `index_no_false_neg_before_repairs` — the invariant along every history in
+which each revert happens in a state where (a) the cache holds no entry for a window the revert
+re-opens, (b) there is no persisted snapshot at or above the reverted block, (c) the revert does not
+re-open a completed window (`RevertGuard`); in particular along every reorg-free history.
 -/
-theorem index_no_false_neg_partial (W cap : Nat) (hW : 1 ≤ W) (ops : List Op)
+theorem index_no_false_neg_before_repairs (W cap : Nat) (hW : 1 ≤ W) (ops : List Op)
     (hok : HistOK ⟨W, cap, false, false, false⟩ Node.init ops)
     (hne : (run ⟨W, cap, false, false, false⟩ Node.init ops).chain ≠ []) :
     NoFalseNeg ⟨W, cap, false, false, false⟩ (run ⟨W, cap, false, false, false⟩ Node.init ops) :=
@@ -156,6 +183,7 @@ theorem histOK_of_no_revert (cfg : Cfg) (ops : List Op) (hnr : ∀ op ∈ ops, o
     | snap => exact ⟨trivial, ih' _ h⟩
     | restart => exact ⟨trivial, ih' _ h⟩
     | query f a b t c l => exact ⟨trivial, ih' _ h⟩
+    | prune k => exact ⟨trivial, ih' _ h⟩
 
 /-! ## Paging -/
 
@@ -165,16 +193,16 @@ returns exactly the naive scan of the canonical chain over the range (cut at the
 with the block / transaction / event-index tags of the naive scan. `fuel` only bounds the number of
 pages; any value above the stated bound gives the same answer. -/
 theorem paging_complete (cfg : Cfg) (hW : 1 ≤ cfg.W) (n : Node) (f : Filter) (fromB toB chunk limit : Nat)
-    (hchunk : 1 ≤ chunk) (hne : n.chain ≠ []) (hnf : NoFalseNeg cfg n) (fuel : Nat)
+    (hchunk : 1 ≤ chunk) (hne : n.chain ≠ []) (hnf : NoFalseNeg cfg n) (hfl : n.floor ≤ fromB) (fuel : Nat)
     (hfuel : (naive f n.chain fromB (min toB (n.chain.length - 1))).length + n.chain.length < fuel) :
     collect cfg f fromB toB chunk limit fuel n none = some (naive f n.chain fromB (min toB (n.chain.length - 1))) := by
-  obtain ⟨hwf, hs, hc⟩ := hnf
+  obtain ⟨hwf, hs, hc, _⟩ := hnf
   have hlen : n.chain.length = (n.chain.length - 1) + 1 := by
     cases hc' : n.chain with
     | nil => exact absurd hc' hne
     | cons _ _ => simp
   have := collect_spec cfg f fromB toB chunk limit (n.chain.length - 1) hW hchunk fuel n none hlen hwf
-    (hs.mono (Nat.min_le_right _ _)) hc (Or.inl rfl)
+    (hs.mono (Nat.min_le_right _ _)) hc hfl (Or.inl rfl)
   simp only [startOf, skipOf, wantN_zero] at this
   rw [naive_eq]
   apply this
@@ -193,7 +221,7 @@ def Valid (f : Filter) (n : Node) (fromB : Nat) (tok : Option Token) : Prop :=
 
 theorem token_progress (cfg : Cfg) (hW : 1 ≤ cfg.W) (n : Node) (f : Filter) (fromB toB chunk limit : Nat)
     (tok : Option Token) (hchunk : 1 ≤ chunk) (hne : n.chain ≠ []) (hnf : NoFalseNeg cfg n)
-    (hv : Valid f n fromB tok) :
+    (hfl : n.floor ≤ startOf fromB tok) (hv : Valid f n fromB tok) :
     ∃ evs t, (query cfg n f fromB toB tok chunk limit).2 = .ok evs t ∧ evs.length ≤ chunk ∧
       NoFalseNeg cfg (query cfg n f fromB toB tok chunk limit).1 ∧
       let hi := min toB (n.chain.length - 1)
@@ -203,13 +231,13 @@ theorem token_progress (cfg : Cfg) (hW : 1 ≤ cfg.W) (n : Node) (f : Filter) (f
         Valid f n fromB (some t) ∧ t.b ≤ hi ∧
         (startOf fromB tok < t.b ∨ (startOf fromB tok = t.b ∧ skipOf tok < t.p)) ∧
         (evs ≠ [] ∨ startOf fromB tok < t.b))) := by
-  obtain ⟨hwf, hs, hc⟩ := hnf
+  obtain ⟨hwf, hs, hc, hfh⟩ := hnf
   have hlen : n.chain.length = (n.chain.length - 1) + 1 := by
     cases hc' : n.chain with
     | nil => exact absurd hc' hne
     | cons _ _ => simp
   obtain ⟨hpost, hcg⟩ := events_spec cfg n f fromB toB tok chunk limit (n.chain.length - 1) hW hlen hwf
-    (hs.mono (Nat.min_le_right _ _)) hc hv
+    (hs.mono (Nat.min_le_right _ _)) hc hfl hv
   simp only [query]
   revert hpost
   cases hr : (events cfg n f fromB toB tok chunk limit).1 with
@@ -217,7 +245,7 @@ theorem token_progress (cfg : Cfg) (hW : 1 ≤ cfg.W) (n : Node) (f : Filter) (f
   | ok evs t =>
     simp only [WinPost, List.nil_append, List.length_nil]
     intro hpost
-    refine ⟨evs, t, rfl, ?_, ⟨hwf, ⟨hs.running, hs.persisted⟩, hcg⟩, ?_⟩
+    refine ⟨evs, t, rfl, ?_, ⟨hwf, ⟨hs.running, hs.persisted⟩, hcg, hfh⟩, ?_⟩
     · rcases hpost with ⟨_, _, h⟩ | ⟨_, _, _, _, _, _, h, _⟩ <;> exact h
     · rcases hpost with ⟨ht, hA, _⟩ | ⟨h1, h2, X, hX, hXw, hv', _, hp⟩
       · exact Or.inl ⟨ht, hA⟩
@@ -245,6 +273,7 @@ followed by the pre-confirmed blocks; a lower bound `pre_confirmed` (the sentine
 pre-confirmed block (`loOf`), an upper bound `pre_confirmed` means all of them. -/
 theorem paging_complete_preconfirmed (cfg : Cfg) (hW : 1 ≤ cfg.W) (n : Node) (f : Filter)
     (fromB toB chunk limit : Nat) (hchunk : 1 ≤ chunk) (hne : n.chain ≠ []) (hnf : NoFalseNeg cfg n)
+    (hfl : n.floor ≤ fromB)
     (pre : List Block) (hpre : pre ≠ []) (hpwf : ∀ blk ∈ pre, ∀ it ∈ blk.items, it ∈ blk.bloom)
     (hfit : n.chain.length - 1 + pre.length < sentinel) (fuel : Nat)
     (hfuel : (naive f (n.chain ++ pre) (loOf fromB none (n.chain.length - 1 + pre.length))
@@ -252,13 +281,13 @@ theorem paging_complete_preconfirmed (cfg : Cfg) (hW : 1 ≤ cfg.W) (n : Node) (
     collectPre cfg f fromB toB chunk limit (n.chain.length - 1) pre fuel n none =
       some (naive f (n.chain ++ pre) (loOf fromB none (n.chain.length - 1 + pre.length))
         (min toB (n.chain.length - 1 + pre.length))) := by
-  obtain ⟨hwf, hs, hc⟩ := hnf
+  obtain ⟨hwf, hs, hc, hfh⟩ := hnf
   have hlen : n.chain.length = (n.chain.length - 1) + 1 := by
     cases hc' : n.chain with
     | nil => exact absurd hc' hne
     | cons _ _ => simp
   have := collectPre_spec cfg f fromB toB chunk limit (n.chain.length - 1) pre hW hchunk hpre hfit hpwf fuel n none
-    hlen hwf hs hc (Or.inl rfl)
+    hlen hwf hs hc hfl hfh (Or.inl rfl)
   simp only [skipOf, wantN_zero] at this
   rw [naive_eq] at hfuel ⊢
   generalize (loOf fromB none (n.chain.length - 1 + pre.length)) = lo at this hfuel ⊢
@@ -268,6 +297,22 @@ theorem paging_complete_preconfirmed (cfg : Cfg) (hW : 1 ≤ cfg.W) (n : Node) (
   generalize (List.flatMap (blkSel f (n.chain ++ pre)) (List.range' lo (hi + 1 - lo))).length = k at hfuel ⊢
   omega
 
+/-- **page_sound** — no hypothesis on the node at all (any index state, any cache content, any
+retention floor) and any token, also one the server never issued: a page that does not fail is a
+sub-list of the naive scan from the token's block (or the range start) to the range end. With
+`naive_spec` / `naive_in_chain_order`: every returned event is a matching event of the canonical
+chain in the range with its true tags, in chain order, none twice. What a defective index or a
+forged token can cost is completeness, never correctness of what is returned. -/
+theorem page_sound (cfg : Cfg) (hW : 1 ≤ cfg.W) (n : Node) (f : Filter) (fromB toB chunk limit : Nat)
+    (tok : Option Token) (evs : List Emitted) (t : Token)
+    (h : (query cfg n f fromB toB tok chunk limit).2 = .ok evs t) :
+    evs.Sublist (naive f n.chain (startOf fromB tok) (min toB (n.chain.length - 1))) := by
+  have := events_sound cfg n f fromB toB tok chunk limit hW
+  simp only [query] at h
+  rw [h] at this
+  obtain ⟨Y, hY, hYs⟩ := this
+  simpa [hY] using hYs
+
 /-! ## The property, end to end -/
 
 /-- **C09 for the repaired code**: after every history, every query paged to the end returns
@@ -276,10 +321,24 @@ theorem events_exact (cfg : Cfg) (hW : 1 ≤ cfg.W) (hr : Repaired cfg) (ops : L
     (hok : StoresOK cfg Node.init ops) (hne : (run cfg Node.init ops).chain ≠ [])
     (f : Filter) (fromB toB chunk limit : Nat) (hchunk : 1 ≤ chunk) :
     let n := run cfg Node.init ops
+    n.floor ≤ fromB →
     ∀ fuel, (naive f n.chain fromB (min toB (n.chain.length - 1))).length + n.chain.length < fuel →
       collect cfg f fromB toB chunk limit fuel n none = some (naive f n.chain fromB (min toB (n.chain.length - 1))) := by
-  intro n fuel hfuel
-  exact paging_complete cfg hW n f fromB toB chunk limit hchunk hne (index_no_false_neg cfg hW hr ops hok hne) fuel hfuel
+  intro n hfl fuel hfuel
+  exact paging_complete cfg hW n f fromB toB chunk limit hchunk hne (index_no_false_neg cfg hW hr ops hok hne) hfl fuel hfuel
+
+/-- **Pruned ranges are refused, never answered in part**: a query (or a token) that starts at a
+canonical block below the retention floor fails with `pruned` and changes nothing. -/
+theorem pruned_start_rejected (cfg : Cfg) (n : Node) (f : Filter) (fromB toB chunk limit : Nat) (tok : Option Token)
+    (h1 : startOf fromB tok < n.chain.length) (h2 : startOf fromB tok < n.floor) :
+    query cfg n f fromB toB tok chunk limit = (n, .err .pruned) := by
+  simp only [query, events_eq]
+  cases hl : n.chain.length with
+  | zero => omega
+  | succ latest =>
+    have : (decide (startOf fromB tok ≤ latest) && decide (startOf fromB tok < n.floor)) = true := by
+      simp only [Bool.and_eq_true, decide_eq_true_eq]; omega
+    simp [this]
 
 /-! ## The code as it is: three witnesses (window size 3, replayed at 8192 on the real code) -/
 
@@ -346,6 +405,19 @@ example :
     (query cfgRepaired n fB 0 2 none 1 1).2 = .ok [⟨0, 0, 0, ⟨11, []⟩⟩] ⟨0, 2⟩ ∧
     (query cfgRepaired n fB 0 2 (some ⟨0, 2⟩) 1 1).2 = .ok [⟨0, 0, 2, ⟨11, []⟩⟩] ⟨2, 0⟩ ∧
     collect cfgRepaired fB 0 2 1 1 10 n none = some (naive fB n.chain 0 2) := by
+  decide
+
+-- a pruning node: 7 blocks, window size 3, the floor moves to block 4 (window [0,2] is dropped), restart with
+-- the pruning-aware initialiser; queries from the floor are exact, queries from below it are refused
+example :
+    let blkA : Block := ⟨[[⟨11, [7]⟩]], [.addr 11, .key 0 7]⟩
+    let ops : List Op := [.store blkA, .store blkE, .store blkE, .store blkE, .store blkA, .store blkA, .store blkE,
+      .snap, .prune 4, .revert, .store blkA, .restart]
+    let n := run cfgRepaired Node.init ops
+    storesOKb cfgRepaired Node.init ops = true ∧ n.floor = 4 ∧ n.persisted.map (·.1) = [3] ∧
+    (query cfgRepaired n fB 4 9 none 5 0).2 = .ok [⟨4, 0, 0, ⟨11, [7]⟩⟩, ⟨5, 0, 0, ⟨11, [7]⟩⟩, ⟨6, 0, 0, ⟨11, [7]⟩⟩] Token.none ∧
+    (query cfgRepaired n fB 3 9 none 5 0).2 = .err .pruned ∧
+    (query cfgRepaired n fB 9 9 (some ⟨0, 1⟩) 5 0).2 = .err .pruned := by
   decide
 
 -- a query into the pre-confirmed blocks, paged with chunk size 1
